@@ -425,3 +425,48 @@ def show(e, depth=0):
     if k == "downcast":
         return "(%s as %s)" % (show(e[1], depth + 1), e[2])
     return "?" + str(e[1:])[:40]
+
+
+def deps(inst, exprs, follow=lambda d: True, _seen=None, depth=0):
+    """data-dependence closure of expressions: set of ('call', bb) / ('param', n) / ('field', name) / ('const', v) atoms,
+    following call results into the call's arguments when follow(callee def path) is true."""
+    out = set()
+    seen = _seen if _seen is not None else set()
+    fl = flow(inst)
+
+    def walk(e, d):
+        if d > 60 or not isinstance(e, tuple) or not e:
+            return
+        k = e[0]
+        if k == "call":
+            out.add(("call", e[1]))
+            if (inst.id, e[1]) in seen:
+                return
+            seen.add((inst.id, e[1]))
+            if follow(e[3] or ""):
+                t = inst.term(e[1])
+                for i in range(len(t.get("args", []))):
+                    for a in fl.term_arg(e[1], i):
+                        walk(a, d + 1)
+            return
+        if k == "param":
+            out.add(("param", e[1])); return
+        if k == "const":
+            out.add(("const", e[1], e[2])); return
+        if k == "field":
+            out.add(("field", e[2], e[4]))
+        if k == "partial":
+            # aggregate built field by field: include all partial defs
+            return
+        for x in e[1:]:
+            if isinstance(x, tuple) and x and isinstance(x[0], str) and x[0] in (
+                    "const", "param", "call", "field", "deref", "ref", "cast", "binop", "unop", "discr", "agg", "index", "cindex",
+                    "downcast", "unknown", "repeat", "partial"):
+                walk(x, d + 1)
+            elif isinstance(x, tuple):
+                for y in x:
+                    if isinstance(y, tuple) and y and isinstance(y[0], str):
+                        walk(y, d + 1)
+    for e in exprs:
+        walk(e, depth)
+    return out
